@@ -1,10 +1,16 @@
 (* C11 - executable instance of V2/Cleanup.v for the correspondence (X3): the real
    _clean_up_state (with a controlled clock) against `cleanup_now` on abstracted real states. *)
 From Coq Require Import ZArith List String Bool.
-From NG Require Import Gen.C11Consts V2.Cleanup V2.Cleanup_now.
+From NG Require Import Gen.C11Consts V2.Cleanup.
 Import ListNotations.
 Open Scope string_scope.
 Open Scope Z_scope.
+
+(* _clean_up_state with the constants of the CURRENT source; clock ticks = microseconds *)
+Definition cfg_now : cfg :=
+  mkCfg (cleanup_age_s * 1000000) cleanup_cmp_gt cleanup_needs_done cleanup_needs_not_activated done_statuses.
+
+Definition cleanup_now : Z -> state -> option state := cleanup cfg_now.
 
 Fixpoint leqb {A} (e : A -> A -> bool) (a b : list A) : bool :=
   match a, b with [] , [] => true | x :: a', y :: b' => e x y && leqb e a' b' | _, _ => false end.
